@@ -68,6 +68,10 @@ CLAIMED["C40"] = dict(engine="cluster", design="§6 C40, §3.4",
    technique=TECH + "real master and volume servers on a simulated network; every upload/delete HTTP request parked and released per plan with drop / lost response / delay per replica message and a chosen completion order (client-library retries on the fake clock); replica-equality oracle after every operation reported successful",
    text="Uploads with names and mime types that do and do not trigger client-side compression, pairs, TTL, client timestamps and the manifest flag, overwrites and deletes are sent to the primary of a volume replicated on 2-3 real volume servers; replica requests fail, lose their response or are delayed per plan. After every operation the client saw succeed, every replica is queried over HTTP (status, headers incl. name/mime/pairs/last-modified, decoded body) and gRPC (cookie, stored last-modified, TTL) and all must agree. Stored checksum/compression may differ (the statement compares decoded content). Nothing is demanded for operations reported failed.",
    note=CLUSTERNOTE)
+CLAIMED["C34"] = dict(engine="cluster", design="§6 C34",
+   technique=TECH + "real master issuing tokens and a real volume server checking them on one fake clock; token use placed by the plan around the expiry instant; accept/reject oracle plus stored-state comparison around every rejected or accepted request",
+   text="Partial claim: enumeration of token shapes is input generation and only sampled (other key, alg=none, garbage, other file, sub-file suffix, missing). Simulation decides the time-dependent part in the running system: the master's Assign token (and fresh tokens) are used for uploads, deletes and reads after fake delays straddling expires_after_seconds; a request is accepted iff the token is unexpired at the server's check, signed with the configured key and names the target file (suffix ignored); rejected requests leave the stored blob untouched, accepted ones take effect.",
+   note=CLUSTERNOTE + " The expiry second itself may go either way (second-granular claims). Clock skew between master and volume server is not emulated.")
 
 PLANNED = {}
 
